@@ -5,16 +5,3 @@ NOTES = ("All checks are runtime monitors over executions of the real library (D
          "Exit 0 = held on everything observed, 1 = violation (VIOLATION line + replay file), 2 = inconclusive.")
 NOT_APPLICABLE = {}
 
-META = {}
-
-META["C06"] = dict(
-    level_text=("Reference-multiset monitor: tens of thousands (quick) to millions (thorough) of PRNG-derived operation "
-                "histories on the real priority queue, with size, contents, heap order, handle<->slot bijection and "
-                "dead-handle marking compared against an independent model after every single operation, under ASan + "
-                "library pre/post-conditions (Debug) and again on the shipped -O2 build. Exploration is the right level: "
-                "the property quantifies over programs, and the oracle is exact per operation."),
-    design_ref="DESIGN.md section 5, C06",
-    level_note=("Trusted: the harness's reference model (array + linear search) and gcc ASan. Holds only for the "
-                "histories generated (<=300 ops, <=96 handles, item sizes listed in the evidence rule)."),
-    technique="runtime monitoring: reference-model oracle after every operation + ASan/UBSan + canaries",
-)
